@@ -2,7 +2,7 @@
     Property theorems only; each is closed by [exact] of a lemma of [Proofs/]. *)
 From Coq Require Import List ZArith Bool.
 From EDS Require Import Model.Objects Model.PodSpec Model.Backoff Model.Rolling Model.ErsReconcile Model.EdsReconcile Model.Abstract
-     Proofs.Lists Proofs.RollingProofs Proofs.C11Proofs Proofs.C02Proofs Proofs.C16Proofs.
+     Proofs.Lists Proofs.RollingProofs Proofs.C11Proofs Proofs.C02Proofs Proofs.C16Proofs Proofs.ReadFaults Model.Default.
 Import ListNotations.
 Open Scope Z_scope.
 
@@ -48,3 +48,18 @@ Theorem C11_converges_from_any_state : forall maxc mu n s,
   a_wf s -> 1 <= maxc -> 1 <= mu -> a_measure s <= Z.of_nat n -> a_converged (a_rounds n maxc mu s).
 Proof. exact converges. Qed.
 Print Assumptions C11_converges_from_any_state.
+
+(** Faults on the read side: when a List of the replica-set sync fails, the sync touches no pod - it either returned
+    before reading (gate closed, parent not defaulted) or ends with an error *)
+Theorem C11_ers_list_failure_touches_nothing : forall sn ch pl,
+  f_list (sn_faults sn) = true -> ers_sync sn ch = Ok pl ->
+  pl_creates pl = [] /\ pl_deletes pl = [] /\ pl_cleanup pl = [] /\ pl_label_add pl = [] /\ pl_label_del pl = [].
+Proof. exact ers_list_failure_touches_nothing. Qed.
+Print Assumptions C11_ers_list_failure_touches_nothing.
+
+(** ... and an ExtendedDaemonSet reconcile (of a defaulted object) that cannot list its replica sets has no plan at all:
+    it ends with an error before any write *)
+Theorem C11_eds_list_failure_writes_nothing : forall sn pl e,
+  es_fail_list_rs sn = true -> es_obj sn = Some e -> is_defaulted e = true -> eds_sync sn = Ok pl -> False.
+Proof. exact eds_list_failure_writes_nothing. Qed.
+Print Assumptions C11_eds_list_failure_writes_nothing.
